@@ -887,9 +887,15 @@ class World(object):
 # generation
 
 def open_signatures():
-    if os.environ.get('VERIF_C20_ASSUME_FIXED'):
+    """open findings of known_findings.d; VERIF_C20_ASSUME_FIXED=all (or a comma separated list of signatures) treats
+    them as repaired - used only to verify a proposed fix on a scratch copy before the finding is marked fixed"""
+    sigs = set(core.open_signatures(PROPERTY))
+    assume = os.environ.get('VERIF_C20_ASSUME_FIXED', '').strip()
+    if assume in ('1', 'all'):
         return set()
-    return core.open_signatures(PROPERTY)
+    if assume:
+        sigs -= set(x.strip() for x in assume.split(','))
+    return sigs
 
 
 FMT = st.sampled_from(['imf', 'imf', 'imf', 'rfc850', 'asctime'])
@@ -1003,6 +1009,10 @@ class ConditionalMachine(RuleBasedStateMachine):
             self.do({'op': 'advance', 'dt': dt})
         else:
             self.do({'op': 'upstream', 'mode': 'fail' if kind == 'fail' else 'content', 'content': list(content)})
+
+    @rule(dt=st.integers(0, len(ADVANCES) - 1))
+    def advance(self, dt):
+        self.do({'op': 'advance', 'dt': dt})
 
     def teardown(self):
         if self.w.steps:
